@@ -90,6 +90,11 @@ type Index struct {
 	cols      []*Column
 	colsByID  map[uint32]*Column
 	predicate ValueExp // WHERE clause for partial indexes (nil = full index)
+
+	// createdByOngoingTx is set on the in-memory index of the transaction that
+	// executes CREATE INDEX: the index of the store is only initialized when the
+	// next transaction starts, entries can not be looked up through it before
+	createdByOngoingTx bool
 }
 
 type Column struct {
